@@ -211,6 +211,14 @@ func (c *Chain) Run(epochs int) error {
 		for s < last && c.Rng.Chance(skip) {
 			s++
 		}
+		// the first slot of a fork epoch always gets a block (with a non-empty sync aggregate from altair on):
+		// its sync aggregate and attestations are signed under the previous fork version
+		for _, fe := range c.forkEpochsInside() {
+			fs := common.Slot(fe) * sp.SLOTS_PER_EPOCH
+			if fs > c.Slot() && fs < s {
+				s = fs
+			}
+		}
 		// sometimes walk the empty slots with explicit `slots` records (possibly in two hops)
 		if s > c.Slot()+1 && c.Rng.Chance(60) {
 			mid := c.Slot() + 1 + common.Slot(c.Rng.Intn(int(s-c.Slot()-1)))
